@@ -70,7 +70,7 @@ fn build_types(g: &mut CompositionGraph) -> TypeUniverse {
         types: vec![
             (v(rec), vec![], false),         // 0
             (v(list), vec![0], false),       // 1
-            (v(opt), vec![1], false),        // 2
+            (v(opt), vec![1, 0], false),     // 2: depends on the record through the list, defined or not
             (v(pair), vec![0, 1], false),    // 3
             (v(alias), vec![], false),       // 4: aliases record no dependency
             (v(prim), vec![], false),        // 5
